@@ -82,7 +82,8 @@ enum
     OP_CTOR_ITERABLE,
     OP_INDEX_WRITE,
     OP_USE_MOVED_FROM,
-    OP_REVERSE_ADAPTOR
+    OP_REVERSE_ADAPTOR,
+    OP_EMPLACE_POS_ALIAS
 };
 
 static void apply(fixed_vector<int>& v, int op, int arg, int arg2, unsigned idx, struct fv_view* after,
@@ -193,6 +194,10 @@ static void apply(fixed_vector<int>& v, int op, int arg, int arg2, unsigned idx,
         v.emplace_back(arg); // a moved-from container must stay inside its own storage
         break;
     }
+    case OP_EMPLACE_POS_ALIAS:
+        // the constructor argument is an element of the same container (a reference that a shift may overwrite)
+        v.emplace(v.begin() + idx, v[static_cast<unsigned>(arg2) % (v.size() ? v.size() : 1)]);
+        break;
     case OP_REVERSE_ADAPTOR:
     {
         other->nrev = 0;
